@@ -18,6 +18,8 @@ import os as _os
 COVER_LINES = {int(x) for x in _os.environ.get('PYVC_COVER_LINES', '').split(',') if x}
 
 
+_ca = _os.environ.get('PYVC_CHECK_AT', '')
+CHECK_AT = (int(_ca.split('|', 1)[0]), _ca.split('|', 1)[1].split(';;')) if '|' in _ca else None
 TRACE_LINES = {int(x) for x in _os.environ.get('PYVC_TRACE_LINES', '').split(',') if x}
 
 
@@ -42,6 +44,16 @@ class StmtMixin:
     def ex_stmt(self, st: St, s: ast.stmt) -> List[Out]:
         if TRACE_LINES and getattr(s, 'lineno', None) in TRACE_LINES:
             print(f'TRACE line {s.lineno} depth {st.depth} feasible={self.feasible(st)} pc={len(st.pc)}: {ast.unparse(s)[:70]}')
+        if CHECK_AT and getattr(s, 'lineno', None) == CHECK_AT[0]:
+            # dev aid: PYVC_CHECK_AT='<line>|<spec expr>;;<spec expr>': is each expression entailed at that statement?
+            env = dict(self.unit_env)
+            env.update(st.loc)
+            for e in CHECK_AT[1]:
+                try:
+                    g = self.spec_bool(st.copy(), self.sev(st.copy(), ast.parse(e, mode='eval').body, env, self.unit_contract.module))
+                    print(f'CHECK line {s.lineno}: {e} -> entailed={self.entails(st, g, 5000)} refutable={self.feasible(st, NOT(g))}')
+                except Exception as ex:  # noqa
+                    print(f'CHECK line {s.lineno}: {e} !! {type(ex).__name__} {ex}')
         if COVER_LINES and getattr(s, 'lineno', None) in COVER_LINES and st.depth <= 1:
             self.add_obligation('cover', st, TRUE, f'cover_line{s.lineno}', s, detail=ast.unparse(s)[:80])
         m = getattr(self, 'ex_' + type(s).__name__, None)
